@@ -204,7 +204,8 @@ def check_pair(obj_spec, prm_spec):
     with warnings.catch_warnings():
         warnings.simplefilter("ignore")
         try:
-            rp, ro = Broadcaster(obj).broadcast(prm)
+            kept = Broadcaster(obj)
+            rp, ro = kept.broadcast(prm)
         except Exception as e:                      # noqa: BLE001 - the exception type is the observation
             info["raised"] = type(e).__name__
             info["recoded_after_raise"] = (state(obj), state(prm)) != before
@@ -239,12 +240,53 @@ def check_pair(obj_spec, prm_spec):
             outcome = (ro_t["names"], ro_t["rows"], ro_t["values"], rp_t["values"])
             info["unmatched"] = ref.unmatched_rows(obj_t, prm_t, ro_t)
     info["outcome"] = outcome
+    if pandas_prm and not found:
+        found = list(found) + _kept_instance_history(kept, obj, prm)
     seen = set()
     for clause, detail in found:
         if clause not in seen:
             seen.add(clause)
             viol.append(("C13/%s/%s" % (cls, clause), detail))
     return viol, info
+
+
+_UNSEEN = {int: 99, str: "zz", float: 9.5}
+
+
+def _kept_instance_history(kept, obj, prm):
+    """History on ONE Broadcaster instance: it has just broadcast `prm`; now the underlying object gets a key it has never
+    seen (first row re-labelled in place, as `obj.index = ...` or an appended row would do) and the same instance broadcasts
+    again.  Nothing may stick to the instance: it must answer exactly like a fresh Broadcaster on the re-labelled object."""
+    import pandas as pd
+    from pylife.core.broadcaster import Broadcaster
+    idx = obj.index
+    if isinstance(idx, pd.MultiIndex):
+        rows = [list(t) for t in idx]
+        rows[0][0] = _UNSEEN[type(rows[0][0]) if not isinstance(rows[0][0], (np.integer, np.floating)) else (int if isinstance(rows[0][0], np.integer) else float)]
+        new = pd.MultiIndex.from_tuples([tuple(r) for r in rows], names=idx.names)
+    else:
+        vals = list(idx)
+        v0 = vals[0]
+        vals[0] = _UNSEEN[int if isinstance(v0, (int, np.integer)) else float if isinstance(v0, (float, np.floating)) else str]
+        new = pd.Index(vals, name=idx.name)
+    obj.index = new
+
+    def run(b, o, p):
+        try:
+            rp, ro = b.broadcast(p)
+            return ("ok", table(ro), table(rp))
+        except Exception as e:          # noqa: BLE001
+            return ("raised", type(e).__name__, None)
+    with warnings.catch_warnings():
+        warnings.simplefilter("ignore")
+        fresh_obj, fresh_prm = obj.copy(), prm.copy()
+        got = run(kept, obj, prm)
+        exp = run(Broadcaster(fresh_obj), fresh_obj, fresh_prm)
+    from mc.explore import jsonable
+    if jsonable(got) != jsonable(exp):          # (NaN-safe comparison)
+        return [("kept-instance-answers-differently-after-relabel",
+                 {"relabelled_index": table(fresh_obj)["rows"], "kept_instance": list(got), "fresh_instance": list(exp)})]
+    return []
 
 
 def _judge_record_pandas(obj_t, prm_t, ro, rp):
